@@ -604,6 +604,57 @@ def r6_wiring(run):
         run.check(asgi_val is want_asgi, '%s selects the %s method variants' % (q, 'async' if want_asgi else 'sync'), g, c)
 
 
+# ---------------------------------------------------------------------------
+# R7 class-level hooks wrap every responder of the class, inherited ones too
+# ---------------------------------------------------------------------------
+
+_OWN_NAMESPACE_ONLY = ('vars', '__dict__')          # miss inherited members
+_MRO_WIDE = ('getmembers', 'dir')                   # inspect.getmembers / dir() walk the MRO
+
+
+def r7_class_hooks(run):
+    """`@before(...)`/`@after(...)` on a class wraps the class's responders;
+    a responder inherited from a base class is a responder of that class.  The
+    discovery must therefore enumerate members across the MRO.  Frozen table:
+    inspect.getmembers / dir() do; vars(cls) / cls.__dict__ only see the class's
+    own namespace.  W: a rejecting before-hook on a subclass that inherits
+    on_get from its base never runs."""
+    p = run.project
+    for outer_q in ('falcon.hooks.before', 'falcon.hooks.after'):
+        outer = p.func(outer_q)
+        inner = [g for g in outer.nested.values()]
+        if len(inner) != 1:
+            raise AnchorError('%s: expected one decorator closure, found %d' % (outer_q, len(inner)))
+        g = inner[0]
+        run.use(g)
+        param = g.params()[0]
+        loops = [n for n in walk_self(g.node) if isinstance(n, (ast.For, ast.AsyncFor))
+                 and any(isinstance(x, ast.Name) and x.id == param for x in ast.walk(n.iter))]
+        if not loops:
+            raise AnchorError('%s: no loop over the members of the decorated class' % g.qual)
+        for lp in loops:
+            names = set()
+            for x in ast.walk(lp.iter):
+                if isinstance(x, ast.Call) and isinstance(x.func, ast.Name):
+                    names.add(x.func.id)
+                elif isinstance(x, ast.Call) and isinstance(x.func, ast.Attribute):
+                    names.add(x.func.attr)
+                elif isinstance(x, ast.Attribute):
+                    names.add(x.attr)
+            if names & set(_OWN_NAMESPACE_ONLY):
+                run.fail('%s enumerates only the decorated class\'s own namespace: inherited responders are not wrapped, the hook never runs for them' % outer.name,
+                         g, lp.iter, runtime_witness='class Base: on_get...; @falcon.before(reject) class Child(Base): pass -> GET reaches on_get without the hook')
+            elif names & set(_MRO_WIDE):
+                run.ok('%s enumerates the members of the decorated class across its MRO' % outer.name, g.loc(lp), lp.iter)
+            else:
+                raise UnknownIdiom('%s: member enumeration %s' % (g.qual, short(lp.iter)))
+            # the wrapped responder is installed back on the class under the same name
+            sets = [c for c in walk_self(lp) if isinstance(c, ast.Call) and isinstance(c.func, ast.Name) and c.func.id == 'setattr' and len(c.args) == 3]
+            tgt = lp.target.elts[0].id if isinstance(lp.target, ast.Tuple) and isinstance(lp.target.elts[0], ast.Name) else None
+            run.check(bool(sets) and all(isinstance(c.args[0], ast.Name) and c.args[0].id == param and isinstance(c.args[1], ast.Name) and c.args[1].id == tgt for c in sets),
+                      '%s installs each wrapped responder on the class under its own name' % outer.name, g, sets[0] if sets else lp.iter)
+
+
 def check(run):
     run.assume('user middleware does not mutate the prepared stacks at run time')
     run.assume('events of a call node are considered to have happened before its exceptional edge is taken')
@@ -612,4 +663,5 @@ def check(run):
     run.rule('R3', r3_stacks, 'prepare_middleware stack polarity', floor=4)
     run.rule('R4', r4_hooks, 'before/after hook wrappers', floor=6)
     run.rule('R5', r5_lifespan, 'lifespan handler sequencing', floor=10)
+    run.rule('R7', r7_class_hooks, 'class-level hooks cover inherited responders', floor=4)
     run.rule('R6', r6_wiring, 'registration order and mode wiring of the prepared stacks', floor=9)
